@@ -1,4 +1,4 @@
-import VtProofs.Json
+import VtProofs.JsonGrammar
 /-!
 # C17 — JSON round trips and containers hand back the TileJSON they were given
 
@@ -29,5 +29,82 @@ theorem parse_quoted (s : List Char) (pre tail : Bytes) (dbg : Bool) :
 
 /-- `String::from_utf8(s.into_bytes()) = Ok(s)` (core's verified UTF-8 decoder) -/
 theorem utf8_roundtrip (s : List Char) : fromUtf8 (utf8 s) = some s := fromUtf8_utf8 s
+
+/-! ### values -/
+
+variable {N : Type}
+
+/-- **C17b (in context)**: wherever a `stringify` output stands in the input — followed by nothing,
+    `,`, `]` or `}` — `parse_json_iter` returns exactly the value and stops right behind it.
+    `WF v`: object keys strictly increasing at every level (what a `BTreeMap` holds);
+    `NumLaws`: `parse(to_string(x)) = x` and `to_string(x)` has the shape `-?(0|[1-9]d*)(.d+)?`
+    (the external f64 law, tested on the real f64 in every run). -/
+theorem parse_stringify_in_context (ops : NumOps N) (laws : NumLaws ops) (v : JsonValue N) (hv : WF v)
+    (pre tail : Bytes) (dbg : Bool) (ht : Stop tail) (fuel : Nat) (hf : need v ≤ fuel) :
+    parseValue ops fuel { pre := pre, rest := stringify ops v ++ tail, debug := dbg }
+      = .ok (v, { pre := (stringify ops v).reverse ++ pre, rest := tail, debug := dbg }) :=
+  parseValue_stringify ops laws v fuel pre tail dbg ht hf hv
+
+/-- **C17b**: `parse_json_str(stringify(v)) = Ok(v)` for every value tree (any depth, any
+    strings, any numbers satisfying the f64 law).  In particular the fuel that `parseBytes` hands
+    to the recursive functions is always sufficient and no panic site is reached. -/
+theorem parse_stringify (ops : NumOps N) (laws : NumLaws ops) (v : JsonValue N) (hv : WF v) :
+    parseBytes ops (stringify ops v) = .ok v := by
+  unfold parseBytes Iter.start
+  have hf : need v ≤ fuelFor (stringify ops v) := by
+    have := need_le ops v
+    unfold fuelFor; omega
+  have := parseValue_stringify ops laws v (fuelFor (stringify ops v)) [] [] true
+    (by intro b r e; cases e) hf hv
+  simp only [List.append_nil] at this
+  rw [this]; rfl
+
+/-- **C17c**: every `stringify` output is a JSON text in the sense of RFC 8259 (grammar of §2–§7
+    as inductive predicates in `VtProofs/JsonGrammar.lean`), hence accepted by any conforming
+    parser. -/
+theorem stringify_in_rfc8259 (ops : NumOps N) (laws : NumLaws ops) (v : JsonValue N) :
+    RfcText (stringify ops v) := by
+  have := RfcText.mk [] _ [] rfcWs_nil (stringify_rfc ops laws v) rfcWs_nil
+  simpa using this
+
+/-- escaped strings stay inside the RFC string grammar (control characters, quotes and
+    backslashes never appear raw) -/
+theorem escape_in_rfc8259 (s : List Char) : RfcString (quote s) := quote_rfc s
+
+/-- what `BTreeMap::from_iter` builds from entries that are already strictly sorted is the list itself -/
+theorem object_from_sorted {V : Type} (kvs : List (List Char × V)) (h : SortedKeys kvs) : mkObj kvs = kvs :=
+  mkObj_sorted kvs h
+
+/-! ### non-vacuity -/
+
+/-- a (tiny) number type satisfying the laws: `false ↦ "-0"`, `true ↦ "12.5"` -/
+def demoOps : NumOps Bool where
+  show_ := fun b => if b then [0x31, 0x32, 0x2e, 0x35] else [0x2d, 0x30]
+  read := fun lx => if lx = [0x31, 0x32, 0x2e, 0x35] then some true else if lx = [0x2d, 0x30] then some false else none
+
+theorem demoLaws : NumLaws demoOps where
+  read_show := by intro n; cases n <;> simp [demoOps]
+  lex := by
+    intro n
+    cases n
+    · have := NumLex.mk true [0x30] [] false (by simp) (by intro b hb; simp at hb; subst hb; decide) (Or.inl rfl) (by simp)
+      simpa [demoOps] using this
+    · have := NumLex.mk false [0x31, 0x32] [0x35] true (by simp)
+        (by intro b hb; simp at hb; rcases hb with rfl | rfl <;> decide)
+        (Or.inr (by intro d r e; simp at e; rw [← e.1]; decide))
+        (by intro _; exact ⟨by simp, by intro b hb; simp at hb; subst hb; decide⟩)
+      simpa [demoOps] using this
+
+def demoValue : JsonValue Bool :=
+  .obj [(['a'], .arr [.num true, .null, .str ['"', '\\', '\n', 'é', '😊', Char.ofNat 0x85]]), (['b', '"'], .obj []), (['é'], .num false)]
+
+example : WF demoValue := by
+  simp only [demoValue, WF, WFL, WFM, SortedKeys, and_true, List.pairwise_cons, List.Pairwise.nil]
+  decide
+
+example : parseBytes demoOps (stringify demoOps demoValue) = .ok demoValue :=
+  parse_stringify demoOps demoLaws demoValue (by
+    simp only [demoValue, WF, WFL, WFM, SortedKeys, and_true, List.pairwise_cons, List.Pairwise.nil]
+    decide)
 
 end VtProps.C17
